@@ -32,6 +32,8 @@ func init() {
 func runC06(c *Ctx) {
 	c06ReplacementMerge(c)
 	c06EmptySelectionSkips(c)
+	c06SuppressorsDisjoin(c)
+	c06OptionsFullPath(c)
 	p := c.P
 	c.Rule("CATEGORY-NESTING", "MINIMAL ⊆ BASIC ⊆ STANDARD (and DEFAULT) in every spec version", 60)
 	c.Rule("RESOLUTION-PIPELINE", "use/except/ignore_only pass category expansion and un-deprecation before they are consumed", 3)
